@@ -33,3 +33,19 @@ def mpo_to_dense(factors) -> np.ndarray:
         acc = acc.transpose(0, 2, 1, 3, 4).reshape(O * o, I * i, r)
     assert acc.shape[2] == 1
     return acc[:, :, 0]
+
+
+def dense_to_mps(vec, n: int, d: int = 2):
+    """exact (untruncated) left-canonical MPS factors of a dense vector, as torch tensors"""
+    import torch
+
+    rest = np.asarray(vec, dtype=complex).reshape(1, -1)
+    out = []
+    for i in range(n - 1):
+        left = rest.shape[0]
+        m = rest.reshape(left * d, -1)
+        u, s, vh = np.linalg.svd(m, full_matrices=False)
+        out.append(torch.tensor(u.reshape(left, d, -1)))
+        rest = s[:, None] * vh
+    out.append(torch.tensor(rest.reshape(rest.shape[0], d, 1)))
+    return out
